@@ -15,7 +15,9 @@ from core import quiet
 quiet()
 MODULE = "SynRBLModel.Properties.C05"
 VALID = ["C>>C", "CC>>CC", "CCO>>CC=O", "[CH4:1]>>[CH4:1]", "CC(=O)C>>CC(O)C", "[Na+].[Cl-]>>[Na+].[Cl-]", "CCCl>>CC"]
-MALFORMED = ["xx>>C", "C>>xx(", "CC", "A>B>C", "C>>C>>C", ">>", "", "C>C", None, float("nan"), 12]
+MALFORMED = ["xx>>C", "C>>xx(", "CC", "A>B>C", "C>>C>>C", ">>", "", "C>C", None, float("nan"), 12,
+             # syntactically fine but rejected by sanitisation (valence, kekulisation), on either side
+             "CC(C)(C)(C)(C)C>>CCO", "CCO>>CC(C)(C)(C)(C)C", "c1cccc1>>CCO", "C>>c1cccc1", "CN(C)(C)(C)C>>C", "O=C=1>>C"]
 
 
 def describe(x):
